@@ -14,7 +14,7 @@ for r in sorted(res, key=lambda r: (0 if r["id"].startswith("seed") else 1 if r[
             m = json.load(open(mp))
             m["caught_by"] = fired
             m["checked_with"] = "python3 -m engine.selftest %s  (scratch copy of /repo + patch, facts re-extracted, rules of %s)" % (r["id"], m["property"])
-            m["expect"] = "fire"
+            m["expect"] = "miss" if r["status"] == "missed-as-documented" else "fire"
             json.dump(m, open(mp, "w"), indent=1)
             notes = open(d + "/notes.md").read() if os.path.exists(d + "/notes.md") else ""
             desc = " ".join(l.strip() for l in notes.splitlines() if l.strip() and not l.startswith("#"))[:200]
